@@ -251,6 +251,12 @@ func crashOnce(self, dir string, tr *core.Tracer, sc *crashScen, raw json.RawMes
 	if out, err := cmd.CombinedOutput(); err != nil {
 		return 0, 0, 0, fmt.Errorf("strace child: %v: %s", err, out)
 	}
+	if kd := os.Getenv("VERIF_CRASH_KEEPLOGS"); kd != "" {
+		// kept for diagnosis of unreproduced verdicts (removed by the driver)
+		os.MkdirAll(kd, 0o755)
+		copyFileTo(logf, filepath.Join(kd, fmt.Sprintf("%d.strace", idx)))
+		copyFileTo(marks, filepath.Join(kd, fmt.Sprintf("%d.marks", idx)))
+	}
 	ops, err := straceimg.Parse(logf, root, marks)
 	if err != nil {
 		return 0, 0, 0, err
